@@ -351,6 +351,13 @@ impl Space for Forms {
             return Ok(());
         }
         let (base, ss, tfs) = self.decode(id);
+        if self.src.inf_rows && tfs.iter().any(|t| matches!(t, Tf::Settings("presolve_off"))) {
+            // with presolve off the row is kept with a right-hand side of 1e20: no longer a form "with bounded
+            // conditioning" (the open C02 finding huge-rhs describes what the solver does there); agreement of
+            // presolve on and off is C09's subject, with its own classes
+            ctx.outcome("skipped(presolve off keeps a 1e20 row: not a bounded-conditioning form)");
+            return Ok(());
+        }
         let Ok(r0) = run_solver(&base, &ss, false) else {
             ctx.outcome("base-panics(judged by C04)");
             return Ok(());
@@ -871,6 +878,11 @@ pub fn spaces(tier: &str, _seed: u64) -> Vec<Box<dyn Space>> {
     // strongly infeasible bases: one row reads 0'x <= -1e21 (beyond "minus infinity"); every form must say so
     for (l, n) in [(vec![NN(3), SOC(3)], 3usize), (vec![Zero(1), NN(2), Exp], 3)] {
         v.push(Box::new(Forms { src: Planted::new(l, n, s0.clone(), Judge::C04, 0, vec![5], "default").with_minus_inf_row(), pairs: false }));
+    }
+    // presolve reductions under every form: the first row of each nonnegative block carries an infinite bound, so
+    // blocks keep k-1 of k rows, exactly one row, or none, and the forms split, merge and reorder those blocks
+    for (l, n) in [(vec![NN(2), SOC(3)], 2usize), (vec![Zero(2), NN(2), Exp], 3), (vec![NN(2), SOC(5), NN(1)], 3), (vec![NN(1), Zero(1), NN(2), SOC(2)], 3), (vec![NN(3), NN(2), SOC(3)], 3)] {
+        v.push(Box::new(Forms { src: Planted::new(l, n, s0.clone(), Judge::C04, if thorough { 1 } else { 0 }, vec![5], "default").with_inf_rows(), pairs: false }));
     }
     for r in repeat_spaces(tier) {
         v.push(Box::new(r));
